@@ -780,6 +780,7 @@ def run_mgr(case, lazy):
 #   {"do": "copy",   "src": n, "dst": m, "kind": <COPIES key>}
 #   {"do": "mut",    "on": n, "how": <MUTS key>, "var": <variable of a Dataset / coord of a DataArray or None>, …params}
 #   {"do": "derive", "src": n, "dst": m, "how": <DERIVES key>}      an expression captured BEFORE later mutations
+#   {"do": "peek",   "on": n}                                        the object is computed (result discarded) at this point
 # After the script EVERY named object is read (case["read"]) and compared with the NumPy-backed run of the same script,
 # so a mutation of a copy that leaks into the original (or the reverse, or into a derived expression) shows up.
 
@@ -816,7 +817,7 @@ def mut_build(case, lazy):
 def _redata(src, f):
     """a copy of src whose arrays are f(array) -- the array-level copy protocol under an xarray object"""
     if isinstance(src, xr.Dataset):
-        return src.copy(data={k: f(src[k].data) for k in src.data_vars})
+        return src.copy(deep=True, data={k: f(src[k].data) for k in src.data_vars})
     if isinstance(src, (xr.DataArray, xr.Variable)):
         return src.copy(data=f(src.data))
     raise TypeError("redata")
@@ -899,14 +900,17 @@ def _value(step, sel, lazy):
 
 
 def _other_like(t, step, lazy):
+    """a second operand shaped like t; chunked only where t itself is (an in-place operator of a NumPy array with a
+    chunked operand is refused by every chunked backend)"""
     arr = np.random.default_rng(step["seed"]).integers(1, 5, size=tuple(t.shape)).astype("f8")
+    lazy = bool(lazy and step.get("lazy_other") and is_chunked_array(t.data if hasattr(t, "dims") else t))
     if isinstance(t, xr.DataArray):
         o = xr.DataArray(arr, dims=t.dims, coords={d: t.coords[d] for d in t.dims})
-        return o.chunk({d: 2 for d in t.dims}) if lazy and step.get("lazy_other") else o
+        return o.chunk({d: 2 for d in t.dims}) if lazy else o
     if isinstance(t, xr.Variable):
         o = xr.Variable(t.dims, arr)
-        return o.chunk({d: 2 for d in t.dims}) if lazy and step.get("lazy_other") else o
-    return arr
+        return o.chunk({d: 2 for d in t.dims}) if lazy else o
+    return guess_chunkmanager(None).from_array(arr, chunks=2) if lazy else arr
 
 
 def _m_setitem_dict(t, st, lazy):
@@ -1062,6 +1066,8 @@ def run_mutate(case, lazy):
             O[st["dst"]] = COPIES[st["kind"]](O[st["src"]])
         elif st["do"] == "derive":
             O[st["dst"]] = DERIVES[st["how"]](O[st["src"]])
+        elif st["do"] == "peek":
+            canon(O[st["on"]])
         else:
             mut_apply(O, st, lazy)
     rd = MUT_READS[case.get("read", "values")]
